@@ -302,7 +302,7 @@ class Waiting(State):
     DONE_CALLBACK = 'DONE_CALLBACK'
 
     _interruption = None
-    _recalled = None
+    _recalled: tuple = ()
 
     def __str__(self) -> str:
         state_info = super().__str__()
@@ -354,7 +354,7 @@ class Waiting(State):
     def recall(self, reason: Any) -> None:
         if self._interruption is reason:
             # not yet seen by execute(): let execute() ignore it and keep waiting, on a fresh future
-            self._recalled = reason
+            self._recalled = self._recalled + (reason,)
             future = self._waiting_future
             if future.done() and not future.cancelled() and future.exception() is reason:
                 self._waiting_future = futures.Future()
@@ -372,9 +372,9 @@ class Waiting(State):
                 self._interruption = None
                 if self._waiting_future is future:
                     self._waiting_future = futures.Future()
-                if interruption is self._recalled:
+                if any(interruption is recalled for recalled in self._recalled):
                     # the request was withdrawn (play() after pause()): keep waiting
-                    self._recalled = None
+                    self._recalled = tuple(recalled for recalled in self._recalled if recalled is not interruption)
                     continue
                 raise
 
